@@ -97,7 +97,28 @@ pub fn run_nsig(args: &[&str]) -> String {
 /// `wobs <path>`: format independent listing of a waveform: timescale, time table, and for every variable in
 /// walk order `<depth>:<kind>:<namehex>:<width>` followed by its changes as `<time>:<K>:<value>`.
 pub fn run_wobs(args: &[&str]) -> String {
-    let mut wave = match simple::read(args[0]) {
+    wobs_impl(args, false)
+}
+
+/// `wfull <path>`: like `wobs`, with all format specific meta-data: scopes as
+/// `<depth>:S:<namehex>:<ScopeType>:<componenthex>:<decl source>:<inst source>`, variables as
+/// `<depth>:V:<namehex>:<enc>:<VarType>:<Direction>:<msb.lsb>:<signal ref>:<enum name hex>/<value hex>.<name hex>;..:<vhdl type hex>`
+pub fn run_wfull(args: &[&str]) -> String {
+    wobs_impl(args, true)
+}
+
+fn hex_or_tilde(s: Option<&str>) -> String {
+    match s {
+        None => "~".to_string(),
+        Some(x) if x.is_empty() => "_".to_string(),
+        Some(x) => hex_of_bytes(x.as_bytes()),
+    }
+}
+
+fn wobs_impl(args: &[&str], full: bool) -> String {
+    // an optional second argument `st` loads single threaded
+    let opts = LoadOptions { multi_thread: !(args.len() > 1 && args[1] == "st"), remove_scopes_with_empty_name: false };
+    let mut wave = match simple::read_with_options(args[0], &opts) {
         Ok(w) => w,
         Err(_) => return "ERR".to_string(),
     };
@@ -110,12 +131,25 @@ pub fn run_wobs(args: &[&str]) -> String {
     wave.load_signals(&ids);
     let tt: Vec<u64> = wave.time_table().to_vec();
     let mut out = vec![format!("ts={} tt={}", ts, time_table_obs(&tt))];
-    fn walk(wave: &simple::Waveform, items: Vec<(bool, usize)>, depth: usize, tt: &[u64], out: &mut Vec<String>) {
+    fn walk(wave: &simple::Waveform, items: Vec<(bool, usize)>, depth: usize, tt: &[u64], out: &mut Vec<String>, full: bool) {
         let h = wave.hierarchy();
         for (is_scope, idx) in items {
             if is_scope {
                 let s = h.iter_scopes().nth(idx).unwrap();
-                out.push(format!("{}:S:{}:-", depth, hex_of_bytes(s.name(h).as_bytes())));
+                if full {
+                    let loc = |l: Option<(&str, u64)>| l.map(|(p, n)| format!("{}@{}", hex_of_bytes(p.as_bytes()), n)).unwrap_or("~".to_string());
+                    out.push(format!(
+                        "{}:S:{}:{:?}:{}:{}:{}",
+                        depth,
+                        hex_or_tilde(Some(s.name(h))),
+                        s.scope_type(),
+                        hex_or_tilde(s.component(h)),
+                        loc(s.source_loc(h)),
+                        loc(s.instantiation_source_loc(h))
+                    ));
+                } else {
+                    out.push(format!("{}:S:{}:-", depth, hex_of_bytes(s.name(h).as_bytes())));
+                }
                 let children: Vec<(bool, usize)> = s
                     .items(h)
                     .map(|i| match i {
@@ -123,7 +157,7 @@ pub fn run_wobs(args: &[&str]) -> String {
                         HierarchyItem::Var(c) => (false, h.iter_vars().position(|x| std::ptr::eq(x, c)).unwrap()),
                     })
                     .collect();
-                walk(wave, children, depth + 1, tt, out);
+                walk(wave, children, depth + 1, tt, out, full);
             } else {
                 let v = h.iter_vars().nth(idx).unwrap();
                 let enc = match v.signal_encoding() {
@@ -143,7 +177,35 @@ pub fn run_wobs(args: &[&str]) -> String {
                         }
                     })
                     .collect();
-                out.push(format!("{}:V:{}:{}={}", depth, hex_of_bytes(v.name(h).as_bytes()), enc, if ch.is_empty() { "-".to_string() } else { ch.join(",") }));
+                let chs = if ch.is_empty() { "-".to_string() } else { ch.join(",") };
+                if full {
+                    let idx = v.index().map(|i| format!("{}.{}", i.msb(), i.lsb())).unwrap_or("~".to_string());
+                    let en = v
+                        .enum_type(h)
+                        .map(|(n, m)| {
+                            format!(
+                                "{}/{}",
+                                hex_or_tilde(Some(n)),
+                                m.iter().map(|(a, b)| format!("{}.{}", hex_or_tilde(Some(a)), hex_or_tilde(Some(b)))).collect::<Vec<_>>().join(";")
+                            )
+                        })
+                        .unwrap_or("~".to_string());
+                    out.push(format!(
+                        "{}:V:{}:{}:{:?}:{:?}:{}:{}:{}:{}={}",
+                        depth,
+                        hex_or_tilde(Some(v.name(h))),
+                        enc,
+                        v.var_type(),
+                        v.direction(),
+                        idx,
+                        v.signal_ref().index(),
+                        en,
+                        hex_or_tilde(v.vhdl_type_name(h)),
+                        chs
+                    ));
+                } else {
+                    out.push(format!("{}:V:{}:{}={}", depth, hex_of_bytes(v.name(h).as_bytes()), enc, chs));
+                }
             }
         }
     }
@@ -155,6 +217,6 @@ pub fn run_wobs(args: &[&str]) -> String {
             HierarchyItem::Var(c) => (false, h.iter_vars().position(|x| std::ptr::eq(x, c)).unwrap()),
         })
         .collect();
-    walk(&wave, top, 0, &tt, &mut out);
+    walk(&wave, top, 0, &tt, &mut out, full);
     out.join(" ")
 }
